@@ -236,9 +236,14 @@ class Built:
         # the edges are removed again; the run must then behave as if they
         # had never been there
         pre = scn.get('pre')
-        if pre:
-            for r, j in pre:
+        late = scn.get('late')
+        if pre or late:
+            for r, j in pre or ():
                 self.obj[j].requires(self.obj[r])
+            # 'late' edges belong to the scenario's graph but are only wired
+            # after the queries
+            for r, j in late or ():
+                self.obj[j].requires(self.obj[r], remove=True)
             for name in self.children:
                 sch = self.obj[name]
                 list(sch.exit_jobs())
@@ -247,8 +252,10 @@ class Built:
                     list(sch.successors(k))
                     sch.predecessors_upstream(k)
             self.top.list()
-            for r, j in pre:
+            for r, j in pre or ():
                 self.obj[j].requires(self.obj[r], remove=True)
+            for r, j in late or ():
+                self.obj[j].requires(self.obj[r])
 
     def _build(self, spec, parent):
         name = spec['name']
@@ -357,6 +364,7 @@ def run_one(scn, prefix=(), snap=False, drain=True, max_iter=4000):
         ex.built = built
         task_job = {}
         creq = {}
+        peek = bool(scn.get('peek'))
 
         def on_iter():
             # record the job of every new `wrapped` task (ground truth for
@@ -373,6 +381,15 @@ def run_one(scn, prefix=(), snap=False, drain=True, max_iter=4000):
                     if n > creq.get(t, 0):
                         creq[t] = n
                         log('creq', j.vname, n)
+            if peek:
+                for name in built.children:
+                    sch = built.obj[name]
+                    list(sch.exit_jobs())
+                    sch.stats()
+                    for k in list(sch.jobs)[:2]:
+                        list(sch.successors(k))
+                built.top.list()
+                repr(built.top)
             if snap:
                 ctx.snaps.append((len(ctx.log), loop.vtime, loop.iter,
                                   _snap(built)))
